@@ -830,11 +830,10 @@ def run(tier):
              "non-trivial = the exact law of the goal monomial changes with n; distinct by source text + monomial; "
              "(c) [finite table test] cumulant vectors of length >= 3",
         trusted_base=TRUSTED,
-        explanation="Theorems (all finite laws, all orders): central_correct (k >= 2), cumulant_correct, "
-                    "cumulant_recursion_correct, cumulant_is_log_mgf, markov, markov_min, second_moment_lower. "
-                    "Order-1 central moment: the code returns the mean (central_order_one, central_counterexample) = "
-                    "known finding F8. Expansions: tests only.")
-
+        explanation="Theorems (all finite laws, all orders): central_correct (every k >= 1), cumulant_correct, "
+                    "cumulant_recursion_correct, cumulant_is_log_mgf, markov, markov_min, second_moment_lower; "
+                    "gc_integrates_to_one and probHermite_eq_heSpec about the model of the expansions. "
+                    "Known finding F8b (0/0 lower bound simplified to 1). Expansions otherwise: tests only.")
 
 def replay(path):
     with open(os.path.join(ROOT, path) if not os.path.isabs(path) else path) as fh:
